@@ -101,7 +101,7 @@ func checkOSM(c OSMCase) error {
 func TestOSMDocuments(t *testing.T) {
 	harness.Run(t, harness.Spec[OSMCase]{
 		Name: "osm-document", N: 3000,
-		Rule: "<osm> documents rendered by an independent XML writer from a model: 0..7 top-level items in document order over bounds, node, way, relation, changeset (with discussion), note (with comments), user, every optional attribute/child independently present, XML-representable Unicode text; layout drawn by rapid: attribute order, child interleaving, quote style, self-closing vs open/close, whitespace and comments, XML declaration, entity vs numeric character references vs CDATA, unknown attributes, unknown child and top-level elements (never containing OSM element names), float trailing zeros, time zone variants, 1/0 booleans; oracle = whole-document decode equals the model per kind in order, streaming scanner yields the model's items in document order; non-trivial = >= 2 element kinds and a layout with character references, unknown parts or shuffled attributes",
+		Rule: "<osm> documents rendered by an independent XML writer from a model: 0..7 top-level items in document order over bounds, node, way, relation, changeset (with discussion), note (with comments), user, every optional attribute/child independently present, XML-representable Unicode text; layout drawn by rapid: attribute order, child interleaving, quote style, self-closing vs open/close (with whitespace or a comment between the tags of an empty element), whitespace and comments, XML declaration, entity vs numeric character references vs CDATA, unknown attributes, unknown child and top-level elements (never containing OSM element names; some named like HTML void elements - meta, link, br, img, input, col - written as ordinary start/end pairs), remark-style notes without id, status, dates or comments, float trailing zeros, time zone variants, 1/0 booleans; oracle = whole-document decode equals the model per kind in order, streaming scanner yields the model's items in document order; non-trivial = >= 2 element kinds and a layout with character references, unknown parts or shuffled attributes",
 		Gen: func(t *rapid.T) OSMCase {
 			return OSMCase{Doc: osmdoc.GenDoc(t, osmdoc.GenOpt{}, "nwrcNub"), Layout: osmdoc.GenLayout(t)}
 		},
